@@ -365,6 +365,8 @@ def model_all_classes(sx, model):
         v = int(str(model.eval(var, model_completion=True)))
         for i, c in enumerate(limbs):
             out[str(c)] = (v >> i) & 1
+    for name, (var, c) in sx.rng_bools.items():
+        out[str(c)] = 1 if z3.is_true(model.eval(var, model_completion=True)) else 0
     return out
 
 
